@@ -225,6 +225,85 @@ def run(ctx, R):
          "Term variants without an explicit indexing arm: %s (explicit: %s)" % (sorted(missing), sorted(explicit)), F.where(it[0]))
 
 
+    # ---- R6: the clause look-ahead never rejects a cell the real head instruction accepts -------------------
+    nca = F.find_impl("Machine", None, "next_clause_applicable")
+    nh = F.hir(nca)
+    PAIRS = {"GetList": "get_list_instr", "GetStructure": "get_structure_instr", "GetPartialString": "get_partial_string_instr"}
+
+    def tag_arms(node):
+        """{tag: [arm bodies]} over every HeapCellValueTag match below node ('_' = wildcard)."""
+        out = {}
+        is_tag_match = lambda n: n["k"] == "Match" and n["scrut"].get("ty") == "types::HeapCellValueTag"
+        # outermost tag matches only: the dispatch on the argument cell itself
+        for mm in repo.walk_skip(node, lambda n: False):
+            pass
+        tops = []
+
+        def rec(n, inside):
+            if isinstance(n, list):
+                for x in n:
+                    rec(x, inside)
+                return
+            if not isinstance(n, dict):
+                return
+            if n.get("k") == "Match" and is_tag_match(n):
+                if not inside:
+                    tops.append(n)
+                inside = True
+            for v in n.values():
+                if isinstance(v, (dict, list)):
+                    rec(v, inside)
+
+        rec(node, False)
+        for mm in tops:
+            for arm in mm["arms"]:
+                for leaf in pat_leaves(arm["pat"]):
+                    rn = res_name(leaf) or ""
+                    tag = rn[len(TAG):] if rn.startswith(TAG) else ("_" if leaf["k"] == "PWild" else None)
+                    if tag:
+                        out.setdefault(tag, []).append(arm["body"])
+        return out
+
+    def only_rejects(body):
+        e = body
+        while e["k"] == "Block" and len(e["stmts"]) + (1 if "expr" in e else 0) == 1:
+            e = e["stmts"][0] if e["stmts"] else e["expr"]
+        if e["k"] == "Ret" and e.get("val", {}).get("k") == "Lit" and e["val"]["lit"].get("bool") is False:
+            return True
+        if e["k"] == "Assign" and e["lhs"]["k"] == "Field" and e["lhs"]["name"] == "fail":
+            return True
+        if e["k"] == "Block":
+            ss = e["stmts"] + ([e["expr"]] if "expr" in e else [])
+            return bool(ss) and all(only_rejects(s) or s["k"] in ("Break", "Ret") for s in ss) and any(only_rejects(s) for s in ss)
+        return False
+
+    n_la = 0
+    for mm in matches_in(nh["body"], src=None):
+        for arm in mm["arms"]:
+            for leaf in pat_leaves(arm["pat"]):
+                rn = res_name(repo.strip_ref(leaf)) or ""
+                if not rn.startswith(repo.INSTR):
+                    continue
+                v = rn[len(repo.INSTR):]
+                if v not in PAIRS:
+                    continue
+                la = tag_arms(arm["body"])
+                if not la:
+                    continue  # the catch-all arm for non-shallow levels performs no test
+                hf = F.find_impl("MachineState", None, PAIRS[v])
+                ha = tag_arms(F.hir(hf)["body"])
+                acc_la = {t for t, bodies in la.items() if t != "_" and not all(only_rejects(b) for b in bodies)}
+                acc_h = {t for t, bodies in ha.items() if t != "_" and not all(only_rejects(b) for b in bodies)}
+                la_default_accepts = "_" in la and not all(only_rejects(b) for b in la["_"])
+                missing = set() if la_default_accepts else acc_h - acc_la
+                n_la += 1
+                R.ob("C06:lookahead:%s:accepts-what-%s-accepts" % (v, PAIRS[v]), not missing,
+                     "next_clause_applicable rejects cells tagged %s for %s although %s handles them: a matching clause would be skipped "
+                     "(look-ahead accepts %s, instruction accepts %s)" % (sorted(missing), v, PAIRS[v], sorted(acc_la), sorted(acc_h)),
+                     "%s (line %s)" % (F.where(nca), arm["ln"]))
+    R.floor("look-ahead instruction cases", n_la, 3)
+
+
 def callee_short(t):
     c = callee_of(t)
     m = re.search(r"([A-Za-z]+OffsetTable[A-Za-z]*)", c)
